@@ -2,9 +2,12 @@
 Proof: coq/Properties_C17.v (Domain.v, DomainProofs.v).  Correspondence: the real
 check_topdomain()/query_datalen() of src/common.c vs the extracted model.  Implementation
 oracle (independent of the model, written from the property text): reference validator and
-reference label-boundary matcher below, applied to the results of the C functions."""
-import os, sys, itertools
-import vlib
+reference label-boundary matcher below, applied to the results of the C functions.
+Dispatch stage: the use of the result in tunnel_dns() of src/iodined.c (inside the domain ->
+tunnel handlers, outside -> forwarded with -b / ignored), real dispatcher through the
+server-history harness vs the extracted server model, plus an oracle from the property text."""
+import os, sys, itertools, re, time
+import vlib, srvlib, wirelib
 from vlib import hexs
 
 ALPHA = b"aAb-.*0"
@@ -443,13 +446,347 @@ def shrink_case(case):
     return case if len(case) < 300 else case[:300] + '...(truncated)'
 
 
+# ---------------------------------------------------------------------------------------------
+# dispatch stage: the use of query_datalen()'s result in tunnel_dns() of iodined.c.
+# Targeted histories (one server configuration + a sequence of query datagrams) go through the real
+# tunnel_dns (harness/h_srvhist.c, built from srvlib.SRV) and through the extracted server model
+# (Server.recv_datagram, model driver 'SRV').  Verdict 1: the oracle below, from the property text
+# and ref_match only, on what the implementation sent.  Verdict 2: model == implementation per event.
+
+T_A, T_NS, T_CNAME, T_NULL, T_MX, T_TXT, T_AAAA, T_SRV = 1, 2, 5, 10, 15, 16, 28, 33
+D_FROM = (4, bytes([192, 0, 2, 77]), 4242)
+D_FROM_KEY = '2:c000024d:4242'
+D_DEST = bytes([10, 1, 2, 3])
+SEND_RE = re.compile(r'^(\d+):([0-9a-f]*):(\d+)=([0-9a-f]+|-)(\{[^}]*\})?$')
+
+d128 = b'.'.join([b'x' * 63, b'y' * 62, b'z'])
+DISPATCH_DOMAINS = [b't.example.com', b'T.Example.COM', b'a.bc', b'x-1.y.z0', d128,
+                    b'*.tun.org', b'*.A.b', b'*.ab.Cd.ef', b'*.' + d128[2:]]
+
+
+def dispatch_qtypes(consts):
+    priv = 65399
+    if isinstance(consts, dict) and isinstance(consts.get('T_PRIVATE'), int):
+        priv = consts['T_PRIVATE']
+    return [('NS', T_NS), ('A', T_A), ('NULL', T_NULL), ('TXT', T_TXT), ('CNAME', T_CNAME), ('MX', T_MX),
+            ('SRV', T_SRV), ('PRIVATE', priv), ('AAAA', T_AAAA)]
+
+
+def change_char(rng, s, lo, hi):
+    """s with one non-dot character at an index in [lo, hi) replaced by a different letter (not its case twin)"""
+    idx = [i for i in range(lo, hi) if s[i] != 0x2e]
+    i = rng.choice(idx)
+    c = rng.choice([x for x in b'abcdefghijklmnopqrstuvwxyz0123456789' if x != (s[i] | 0x20) and x != s[i]])
+    return s[:i] + bytes([c]) + s[i + 1:]
+
+
+def dispatch_names(rng, d):
+    """[(class, query name)] for the accepted domain d: (a) the domain itself in several letter cases,
+    (b) the wildcard label as only extra label, (c) data labels in front, (d) near misses"""
+    wild = d.startswith(b'*.')
+    rest = d[2:] if wild else d
+    out = []
+    if wild:
+        labs = [b'w', b'ab', b'Q7-x', rand_label(rng, rng.choice([1, 3, 20, 63]))]
+        for lab in labs:
+            s = lab + b'.' + rest
+            for v in (s, s.lower(), s.upper(), flip_case(rng, s)):
+                out.append(('wildcard-label', v))
+        base = b'ab.' + rest
+        out.append(('miss-no-wildcard-label', rest))
+        out.append(('miss-star-in-label', b'a*.' + rest))
+        out.append(('miss-star-in-label', b'*.' + rest))
+        out.append(('miss-no-boundary', b'ab' + rest))                   # dot after the wildcard label dropped
+        out.append(('miss-char', b'ab.' + change_char(rng, rest, 0, len(rest))))
+        out.append(('wildcard-label', b'zab' + base))                    # the label just grows: still zero data
+    else:
+        for v in (d, d.lower(), d.upper(), flip_case(rng, d), flip_case(rng, d)):
+            out.append(('equal', v))
+        base = d
+        out.append(('miss-no-boundary', b'x' + d))
+        out.append(('miss-no-boundary', b'zab' + d))
+        out.append(('miss-char', change_char(rng, d, 0, len(d))))
+        out.append(('miss-char', b'zab.' + change_char(rng, d, 0, len(d))))
+        out.append(('miss-first-char-dropped', d[1:] if d[1:2] != b'.' else b'q' + d[1:]))
+    for pre in (b'zab', b'zAbC.qq', b'Z', b'ns', b'NS', b'www', b'wWw', b'x', b'yta',
+                b'z' + rand_label(rng, rng.choice([4, 9, 30]), srvlib.CB32)):
+        out.append(('data', pre + b'.' + flip_case(rng, base)))
+    out.append(('miss-trailing', base + b'x'))
+    out.append(('miss-trailing', base + b'.x'))
+    out.append(('miss-trailing', base[:-1]))
+    out.append(('miss-other-domain', b'www.example.org'))
+    out.append(('miss-other-domain', b'zab.' + rest[:-1] + (b'q' if rest[-1:] != b'q' else b'r')))
+    res = []
+    for cls, n in out:
+        labels = n.split(b'.')
+        if len(n) <= 253 and all(1 <= len(l) <= 63 for l in labels):
+            res.append((cls, n))
+    return res
+
+
+def gen_dispatch(seed, tier, consts):
+    """-> (history lines, meta) ; meta[i] = (domain, bind port, [(class, name, qtype)])"""
+    rng = vlib.rng_for(seed, 'c17-dispatch')
+    hist, meta = [], []
+    qid = rng.randrange(1, 60000)
+    rounds = 1 if tier == 'quick' else 6
+    for rnd_i in range(rounds):
+        for d in DISPATCH_DOMAINS:
+            assert ref_valid(d, True)
+            for bind in (0, rng.choice([53, 5353, 10053])):
+                for tname, qt in dispatch_qtypes(consts):
+                    names = dispatch_names(rng, d)
+                    now = 1000000 + rng.randrange(1000)
+                    nsip = bytes([198, 51, 100, 7]).hex() if rng.randrange(4) == 0 else '-'
+                    cfg = '%s - 1 10.0.0.1 27 1130 %s %d' % (d.hex(), nsip, bind)
+                    evs, m = [], []
+                    for cls, name in names:
+                        qid = (qid + 7727) % 65535 + 1
+                        dg = srvlib.dns_query(qid, qt, name, edns0=rng.randrange(3) > 0)
+                        evs.append('X %d %d %d:%s:%d %s %s' % (now, rng.randrange(1 << 31), D_FROM[0], D_FROM[1].hex(), D_FROM[2],
+                                                              D_DEST.hex(), dg.hex()))
+                        m.append((cls, name, qt))
+                    hist.append('H ' + cfg + ' ; ' + ' ; '.join(evs))
+                    meta.append((d, bind, m))
+    return hist, meta
+
+
+def parse_sends(r):
+    """one event result of h_srvhist.c -> [(destination key, datagram bytes)] ; None when unparsable"""
+    try:
+        sends = r.split(' T', 1)[0]
+        toks = sends.split(' ')
+        if int(toks[0]) != len(toks) - 1:
+            return None
+        out = []
+        for tok in toks[1:]:
+            mm = SEND_RE.match(tok)
+            if not mm:
+                return None
+            out.append(('%s:%s:%s' % (mm.group(1), mm.group(2), mm.group(3)), bytes.fromhex(mm.group(4)) if mm.group(4) != '-' else b''))
+        return out
+    except (ValueError, IndexError):
+        return None
+
+
+def dispatch_event_oracle(domain, bind, event, result):
+    """Property text applied to one query datagram and what the real tunnel_dns sent for it.
+    Returns None or (key, description)."""
+    t = event.split(' ')
+    dg = bytes.fromhex(t[5])
+    try:
+        qm = wirelib.parse_msg(dg)
+    except wirelib.Malformed as e:
+        return ('dispatch:harness', 'generated query does not parse: %s' % e)
+    name = wirelib.dotted(qm['qname'])
+    qt, qid = qm['qtype'], qm['id']
+    sends = parse_sends(result)
+    if sends is None:
+        return ('dispatch:harness', 'unparsable event result %r' % result[:200])
+    answers, forwards = [], []
+    for to, data in sends:
+        try:
+            a = wirelib.parse_msg(data)
+        except wirelib.Malformed as e:
+            return ('dispatch:malformed-output', 'datagram sent to %s for the query %r type %d does not parse (%s)' % (to, name, qt, e))
+        (answers if a['qr'] else forwards).append((to, a))
+    n = ref_match(name, domain)
+    what = 'query %r type %d, domain %r, forwarding port %d' % (name, qt, domain, bind)
+    if n >= 0:
+        # inside the domain: tunnel traffic, whatever the data length
+        if forwards:
+            return ('dispatch:in-domain-forwarded', '%s: the name belongs to the domain (data length %d) but the query was forwarded to %s'
+                    % (what, n, forwards[0][0]))
+        for to, a in answers:
+            if to != D_FROM_KEY or a['id'] != qid or wirelib.dotted(a['qname']).lower() != name.lower() or a['qtype'] != qt:
+                return ('dispatch:answer-misdirected', '%s: answer sent to %s with id %d for %r' % (what, to, a['id'], wirelib.dotted(a['qname'])))
+        first = name.split(b'.')[0].lower()
+        aux_a = qt == T_A and ((first == b'ns' and n == 3) or (first == b'www' and n == 4))
+        if qt == T_NS and n != 1:
+            if len(answers) != 1 or not any(rr['type'] == T_NS for rr in answers[0][1]['answers']):
+                return ('dispatch:in-domain-ns-unanswered', '%s: the name belongs to the domain (data length %d) but the NS query got %d answers'
+                        % (what, n, len(answers)))
+        elif aux_a:
+            if len(answers) != 1 or not any(rr['type'] == T_A for rr in answers[0][1]['answers']):
+                return ('dispatch:in-domain-a-unanswered', '%s: ns./www. address query inside the domain got %d answers' % (what, len(answers)))
+        elif qt in TUNNEL_TYPES and n >= 2 and name[:1] in (b'z', b'Z'):
+            # the stateless "Z" (case check) request: every tunnel record type is answered
+            if len(answers) != 1:
+                return ('dispatch:in-domain-tunnel-unanswered', '%s: case-check request inside the domain (data length %d) got %d answers'
+                        % (what, n, len(answers)))
+        elif qt not in TUNNEL_TYPES and qt != T_NS and answers:
+            return ('dispatch:in-domain-other-type-answered', '%s: got %d answers' % (what, len(answers)))
+        return None
+    # outside the domain: never tunnel traffic
+    if answers:
+        return ('dispatch:foreign-answered', '%s: the name does not belong to the domain but the tunnel code answered it (to %s)'
+                % (what, answers[0][0]))
+    if bind:
+        ok = len(forwards) == 1 and forwards[0][0] == '2:7f000001:%d' % bind and \
+            wirelib.dotted(forwards[0][1]['qname']) == name and forwards[0][1]['qtype'] == qt
+        if not ok:
+            return ('dispatch:foreign-not-forwarded', '%s: the name does not belong to the domain and forwarding is configured, but %s'
+                    % (what, 'nothing was sent' if not forwards else 'the server sent %d queries, first to %s for %r type %d' % (
+                        len(forwards), forwards[0][0], wirelib.dotted(forwards[0][1]['qname']), forwards[0][1]['qtype'])))
+    elif forwards:
+        return ('dispatch:foreign-sent', '%s: no forwarding configured, but a query was sent to %s' % (what, forwards[0][0]))
+    return None
+
+
+TUNNEL_TYPES = set()     # filled by check()/replay() from the source constant T_PRIVATE
+
+
+def set_tunnel_types(consts):
+    TUNNEL_TYPES.clear()
+    TUNNEL_TYPES.update(v for k, v in dispatch_qtypes(consts) if k not in ('NS', 'AAAA'))
+
+
+def dispatch_history_all(case, out):
+    """every event of the history the oracle objects to: (event index, key, description)"""
+    parts = case.split(' ; ')
+    head = parts[0].split(' ')
+    domain, bind = bytes.fromhex(head[1]), int(head[8])
+    res = out.split(' ; ')
+    if out == '<NO-OUTPUT>' or len(res) != len(parts) - 1:
+        yield (0, 'dispatch:harness', 'implementation printed %d event results for %d events' % (len(res), len(parts) - 1))
+        return
+    for k, (ev, r) in enumerate(zip(parts[1:], res)):
+        bad = dispatch_event_oracle(domain, bind, ev, r)
+        if bad:
+            yield (k, bad[0], bad[1])
+
+
+def dispatch_history_oracle(case, out):
+    """-> None or the first (event index, key, description)"""
+    return next(dispatch_history_all(case, out), None)
+
+
+class FullHex:
+    """run the harness / model driver with VERIF_FULL=1 (datagrams printed in full)"""
+    def __enter__(self):
+        self.old = os.environ.get('VERIF_FULL')
+        os.environ['VERIF_FULL'] = '1'
+
+    def __exit__(self, *a):
+        if self.old is None:
+            os.environ.pop('VERIF_FULL', None)
+        else:
+            os.environ['VERIF_FULL'] = self.old
+
+
+def run_hist(exe, cases, work, tag):
+    with FullHex():
+        return vlib.parallel_run_cases(exe, cases, work, tag)
+
+
+def single_event(case, k):
+    parts = case.split(' ; ')
+    return parts[0] + ' ; ' + parts[k + 1]
+
+
+def dispatch_stage(rep, ctx, srv_model):
+    """the dispatch stage of check(); records coverage under rep.cov['dispatch']"""
+    t0 = time.time()
+    set_tunnel_types(ctx.consts)
+    hist, meta = gen_dispatch(rep.seed, rep.tier, ctx.consts)
+    cov = dict(histories=len(hist), events=sum(len(m[2]) for m in meta), domains=len(DISPATCH_DOMAINS),
+               record_types=[k for k, _ in dispatch_qtypes(ctx.consts)])
+    cls = {}
+    inside = zero = zero_ns = outside_fw = outside_nofw = 0
+    for d, bind, m in meta:
+        for c, name, qt in m:
+            cls[c] = cls.get(c, 0) + 1
+            n = ref_match(name, d)
+            if n >= 0:
+                inside += 1
+                zero += n == 0
+                zero_ns += n == 0 and qt == T_NS
+            elif bind:
+                outside_fw += 1
+            else:
+                outside_nofw += 1
+    cov.update(name_classes=cls, in_domain_events=inside, zero_data_events=zero, zero_data_ns_events=zero_ns,
+               foreign_events_forwarding=outside_fw, foreign_events_no_forwarding=outside_nofw,
+               sample=hist[0][:300])
+    rep.cov['dispatch'] = cov
+    if 'srv' not in ctx.exe:
+        return
+    rc, impl, err = run_hist(ctx.exe['srv'], hist, ctx.work, 'disp-impl')
+    if rc != 0:
+        ctx.broken.append(('impl-crash', 'server-history harness exited with %d: %s' % (rc, err[-300:])))
+    seen = dict(events_answered=0, events_forwarded=0, events_silent=0)
+    for o in impl:
+        for r in o.split(' ; '):
+            s = parse_sends(r)
+            if s is None:
+                continue
+            fw = sum(1 for to, data in s if len(data) > 2 and not data[2] & 0x80)
+            seen['events_forwarded'] += fw > 0
+            seen['events_answered'] += len(s) > fw
+            seen['events_silent'] += len(s) == 0
+    cov['implementation_output'] = seen
+    reported = set()
+    for c, o in zip(hist, impl):
+        for k, key, why in dispatch_history_all(c, o):
+            if key in reported:
+                continue            # one concrete input per kind of verdict
+            reported.add(key)
+            # a one-event history when that reproduces the verdict (the queries used do not depend on session state)
+            small = single_event(c, k)
+            rc1, o1, _ = run_hist(ctx.exe['srv'], [small], ctx.work, 'disp-min')
+            b1 = dispatch_history_oracle(small, o1[0]) if o1 else None
+            if b1 and b1[1] == key:
+                case, ev, obs = small, 0, o1[0]
+            else:
+                case, ev, obs = ' ; '.join(c.split(' ; ')[:k + 2]), k, (o.split(' ; ') + [''] * (k + 1))[k]
+            rep.add_violation(key, why, dict(kind='history', driver='srv', case=case, event=ev, observed=obs[:600],
+                                             expected='names inside the domain are tunnel traffic (never forwarded, NS answered); '
+                                                      'names outside it are never answered (forwarded when -b is set)'))
+    cov['oracle_verdicts'] = sorted(reported)
+    rep.cov['evaluations'] = rep.cov.get('evaluations', 0) + cov['events']
+    if 'srv' in ctx.san:
+        rc, sl, err = run_hist(ctx.san['srv'], hist, ctx.work, 'disp-san')
+        cov['sanitizer_histories'] = len(hist)
+        if rc != 0:
+            idx = next((i for i, l in enumerate(sl) if l == '<NO-OUTPUT>'), None)
+            rep.add_violation('sanitizer', 'ASan/UBSan report in the dispatcher: ' + err[-400:],
+                              dict(kind='history', driver='srv', case=hist[idx] if idx is not None else None, observed=err[-2000:]))
+    if srv_model and not rep.violations:
+        rc, mod, err = run_hist(srv_model, hist, ctx.work, 'disp-model')
+        d = vlib.first_diff(hist, impl, mod)
+        good = hist if d is None else hist[:d]
+        cov['events_validated_against_impl'] = sum(c.count(' ; ') for c in good)
+        if d is not None:
+            ea, eb = impl[d].split(' ; '), mod[d].split(' ; ')
+            k = next((i for i in range(min(len(ea), len(eb))) if ea[i] != eb[i]), min(len(ea), len(eb)))
+            ctx.broken.append(('correspondence', 'dispatch: server model and tunnel_dns disagree at event %d: impl=%r model=%r ; case=%s' % (
+                k, (ea[k] if k < len(ea) else '<end>')[:300], (eb[k] if k < len(eb) else '<end>')[:300],
+                single_event(hist[d], k)[:1500] if k < hist[d].count(' ; ') else hist[d][:300])))
+    cov['wall_s'] = round(time.time() - t0, 1)
+
+
 TRUSTED_NOTE = ('C17: tolower()/isdigit() are modelled as the ASCII-only "C"-locale functions (iodine never calls '
                 'setlocale; bytes >= 0x80 reach them as negative chars, glibc returns them unchanged / not a digit); '
-                'the dispatch in iodined.c (domain_len >= 0 -> tunnel handlers, else forward_query/drop) is read, not modelled')
+                'the dispatch in iodined.c (domain_len >= 0 -> tunnel handlers, else forward_query/drop) is modelled by '
+                'Server.tunnel_dns and compared with the real tunnel_dns on targeted histories only (harness/h_srvhist.c: '
+                'sockets, tun, zlib and login_calculate replaced, see C14)')
+
+
+def prepare_both(rep, sanitize, prove_it=True):
+    """pure harness + C17 model (check_topdomain / query_datalen), server-history harness + SRV model (dispatch)"""
+    ctx = vlib.prepare(rep, harnesses={'pure': vlib.pure_harness('C17'), 'srv': srvlib.SRV}, sanitize=sanitize, prove_it=prove_it)
+    srv_model = None
+    if ctx.consts is not None:
+        mok, exe, lg = vlib.build_model_driver('SRV')
+        if mok:
+            srv_model = exe
+        else:
+            ctx.broken.append(('extraction', 'server model extraction / driver build failed: ' + lg[-400:]))
+    return ctx, srv_model
 
 
 def check(rep):
-    ctx = vlib.prepare(rep, harnesses=('pure',), sanitize=(rep.tier == 'thorough'))
+    ctx, srv_model = prepare_both(rep, sanitize=(rep.tier == 'thorough'))
     rep.cov['trusted_base'].append(TRUSTED_NOTE)
     cases, stats = gen_cases(rep.seed, rep.tier)
     rep.cov['rule'] = ('validation: every string of length <= %d over {a,A,b,-,.,*,0} with both wildcard flags, label lengths '
@@ -497,18 +834,59 @@ def check(rep):
         if d is not None:
             ctx.broken.append(('correspondence', 'model and implementation disagree on case %r: impl=%r model=%r' % (
                 shrink_case(cases[d]), impl[d][:200], mod[d][:200])))
+    rep.cov['rule'] += ('. Dispatch stage: for each of %d accepted domains (plain, upper-case, 128 chars, leading wildcard), forwarding '
+                        'port set / not set and 9 record types (NS, A, NULL, TXT, CNAME, MX, SRV, PRIVATE, AAAA) one history of query '
+                        'datagrams through the real tunnel_dns and the server model: the domain itself in several letter cases, the '
+                        'wildcard label as only extra label, data labels (case check "z", ns., www., others), near misses (one char '
+                        'changed, no label boundary, first char dropped, trailing text, star in the wildcard label, other domain); '
+                        'oracle from ref_match: inside => never forwarded, NS / ns. / www. / case-check answered; outside => never '
+                        'answered, forwarded iff a port is configured; then model == implementation per event' % len(DISPATCH_DOMAINS))
+    dispatch_stage(rep, ctx, srv_model)
     if not rep.violations:
         ctx.report_broken()
     return rep
 
 
-def replay(rp):
+def replay_dispatch(rp, case):
+    """a history through the real tunnel_dns (and the server model); verdict of the dispatch oracle"""
     rep = vlib.Report('C17', 'quick', rp.get('seed', 1))
-    ctx = vlib.prepare(rep, harnesses=('pure',), sanitize=False, prove_it=False)
+    ctx, srv_model = prepare_both(rep, sanitize=False, prove_it=False)
+    set_tunnel_types(ctx.consts)
+    if 'srv' not in ctx.exe:
+        print('server-history harness does not build:', [t for k, t in ctx.broken if k == 'build:srv'])
+        return 1
+    rc, impl, err = run_hist(ctx.exe['srv'], [case], ctx.work, 'replay')
+    k = rp.get('event') or 0
+    parts = case.split(' ; ')
+    head = parts[0].split(' ')
+    print('domain:', bytes.fromhex(head[1]), ' forwarding port:', head[8])
+    try:
+        qm = wirelib.parse_msg(bytes.fromhex(parts[k + 1].split(' ')[5]))
+        nm = wirelib.dotted(qm['qname'])
+        print('query :', nm, 'type', qm['qtype'], 'id', qm['id'], ' reference data length:', ref_match(nm, bytes.fromhex(head[1])))
+    except (wirelib.Malformed, IndexError, ValueError):
+        pass
+    print('case  :', case[:600])
+    evs = impl[0].split(' ; ') if impl else []
+    print('impl  :', (evs[k] if k < len(evs) else (impl[0] if impl else err))[:600])
+    if srv_model:
+        rc2, mod, err2 = run_hist(srv_model, [case], ctx.work, 'replay-model')
+        mevs = mod[0].split(' ; ') if mod else []
+        print('model :', (mevs[k] if k < len(mevs) else (mod[0] if mod else err2))[:600])
+    bad = dispatch_history_oracle(case, impl[0]) if impl else (0, 'crash', 'no output')
+    print('oracle:', ('%s: %s' % (bad[1], bad[2])) if bad else 'ok')
+    return 1 if bad else 0
+
+
+def replay(rp):
     case = rp.get('case')
     if not case:
         print('replay names a broken obligation, not an input:', rp.get('broken'))
         return 1
+    if rp.get('driver') == 'srv' or case.startswith('H '):
+        return replay_dispatch(rp, case)
+    rep = vlib.Report('C17', 'quick', rp.get('seed', 1))
+    ctx = vlib.prepare(rep, harnesses=('pure',), sanitize=False, prove_it=False)
     cp = os.path.join(ctx.work, 'replay.cases')
     open(cp, 'w').write(case + '\n')
     rc, impl, err = vlib.run_cases(ctx.exe['pure'], cp)
